@@ -170,7 +170,12 @@ def run(ctx):
         # dialect: Some(..)? gate
         dv = at.get(4)
         dial = le_value(dv) if dv else None
-        okd = dial is not None and calls_in(dial, r'Try>::branch$') != [] and calls_in(dial, r'Iterator>::find$|Iterator::find$') != []
+        FIND = r'Iterator>::find$|Iterator::find$'
+        okd = dial is not None and calls_in(dial, FIND) != []
+        if okd and not calls_in(dial, r'Try>::branch$'):
+            # `?` in its expanded form (or an explicit match): every reply lies behind the Some edge of the search result
+            gd = f.gate_edges(lambda d, v, vals: isinstance(d, tuple) and d[0] == 'discr' and calls_in(d[1], FIND) != [] and v == 1)
+            okd = bool(gd) and not f.must_pass(gd, some_points(f))
         rep.check(r3, okd, 'smb2-negotiate:dialect-or-silence', 'DialectRevision <- %s (None => no reply)' % (short(dial)[:100] if dial else None), dv['loc'] if dv else '')
         # the find closure tests membership in the dialects the client offered
         okc = False
